@@ -22,7 +22,7 @@ type C11Pre struct {
 }
 
 type C11Step struct {
-	Kind  int      `json:"kind"` // 0 GetOrRegisterKey(Names[0]), 1 RegVarAndOp(Names...), 2 GetOrRegisterKey of an already registered name
+	Kind  int      `json:"kind"` // 0 GetOrRegisterKey(Names[0]), 1 RegVarAndOp(Names...), 2 GetOrRegisterKey of an already registered name, 3 ExtendConf(base)(cc) with a base config that holds Names under free explicit keys
 	Names []string `json:"names"`
 }
 
@@ -35,6 +35,10 @@ type C11Case struct {
 	Probe     []int     `json:"probe"`               // indexes of names evaluated one by one
 	Extra     []m.V     `json:"extra,omitempty"`     // bindings for names the config never registered (x0, x1, ...): must be ignored
 }
+
+// reservedLookingNames: the parser's keywords and some operator names; as registered variables
+// they are ordinary names.
+var reservedLookingNames = []string{"if", "let", "any", "all", "map", "filter", "reduce", "collect", "in", "not", "date", "eq", "mod", "and", "overlap", "version"}
 
 var keyPool = []int{-32768, -3, -2, -1, 0, 1, 2, 3, 250, 251, 252, 253, 254, 255, 256, 257, 258, 259, 260, 32760, 32761, 32765, 32766, 32767}
 
@@ -154,6 +158,24 @@ func genC11(t *rapid.T) C11Case {
 		c.Names = append(c.Names, fmt.Sprintf("v%d", i))
 		c.Vals = append(c.Vals, m.V{X: genRawValue(t)})
 	}
+	c.Undefined = rapid.IntRange(0, 3).Draw(t, "undefined") == 0
+	// registered variables may carry the names of keywords and operators (undefined-variable mode
+	// refuses such names by design)
+	if !c.Undefined && rapid.IntRange(0, 3).Draw(t, "oplike") == 0 {
+		pool := rapid.Permutation(reservedLookingNames).Draw(t, "oplike_names")
+		for i := 0; i < len(pool) && i < n; i++ {
+			if rapid.Bool().Draw(t, "oplike_use") {
+				c.Names[(i*7)%n] = pool[i]
+			}
+		}
+		seen := map[string]bool{}
+		for i, nm := range c.Names { // (i*7)%n may repeat: keep names distinct
+			if seen[nm] {
+				c.Names[i] = fmt.Sprintf("v%d", i)
+			}
+			seen[c.Names[i]] = true
+		}
+	}
 	order := rapid.Permutation(c.Names).Draw(t, "order")
 	npre := rapid.IntRange(0, n).Draw(t, "npre")
 	if rapid.Bool().Draw(t, "fewpre") {
@@ -184,9 +206,8 @@ func genC11(t *rapid.T) C11Case {
 		c.Pre = append(c.Pre, C11Pre{Name: order[i], Key: int16(k)})
 	}
 	rest := order[npre:]
-	c.Undefined = rapid.IntRange(0, 3).Draw(t, "undefined") == 0
 	for len(rest) > 0 {
-		switch pickW(t, "step", 6, 2, 1, 1) {
+		switch pickW(t, "step", 6, 2, 1, 1, 1) {
 		case 0:
 			c.Steps = append(c.Steps, C11Step{Kind: 0, Names: []string{rest[0]}})
 			rest = rest[1:]
@@ -196,10 +217,14 @@ func genC11(t *rapid.T) C11Case {
 			rest = rest[k:]
 		case 2: // ask again for a name that is already there
 			c.Steps = append(c.Steps, C11Step{Kind: 2, Names: []string{order[rapid.IntRange(0, len(order)-1).Draw(t, "again")]}})
-		default:
+		case 3:
 			if c.Undefined { // leave it unregistered
 				rest = rest[1:]
 			}
+		default: // a base config with further names is merged into the config built so far
+			k := rapid.IntRange(1, min(len(rest), 3)).Draw(t, "extbatch")
+			c.Steps = append(c.Steps, C11Step{Kind: 3, Names: append([]string{}, rest[:k]...)})
+			rest = rest[k:]
 		}
 	}
 	for i, ne := 0, rapid.IntRange(0, 3).Draw(t, "nextra"); i < ne; i++ {
@@ -266,6 +291,31 @@ func checkC11(c C11Case, r *Rec) *Violation {
 			for _, n := range s.Names {
 				if _, ok := cc.VariableKeyMap[n]; !ok {
 					return Violf("C11: RegVarAndOp did not register %q", n)
+				}
+			}
+		case 3:
+			// the base holds the names under the first free keys from an offset on; merging it must
+			// add them and keep everything registered before
+			inUse := map[eval.VariableKey]bool{}
+			for _, k := range cc.VariableKeyMap {
+				inUse[k] = true
+			}
+			base := eval.NewConfig()
+			next := eval.VariableKey([]int{1, 1, 200, 12000}[len(before)%4])
+			for _, n := range s.Names {
+				if _, already := cc.VariableKeyMap[n]; already {
+					continue // (an earlier repeated request registered it: the base would legitimately re-key it)
+				}
+				for inUse[next] {
+					next++
+				}
+				base.VariableKeyMap[n] = next
+				inUse[next] = true
+			}
+			eval.ExtendConf(base)(cc)
+			for n := range base.VariableKeyMap {
+				if got, ok := cc.VariableKeyMap[n]; !ok || got != base.VariableKeyMap[n] {
+					return Violf("C11: ExtendConf(base) did not take over %q with key %d (present=%v, key %d)", n, base.VariableKeyMap[n], ok, got)
 				}
 			}
 		}
@@ -456,7 +506,7 @@ func equalNormalised(got, want interface{}) bool {
 
 var propC11 = Prop[C11Case]{
 	ID:    "C11",
-	Rule:  "registration histories: 1..40 (sometimes 100..126) names, a pre-populated key map with distinct keys from {-32768, -3..3, 250..260, 32760..32767, random int16, small}, then GetOrRegisterKey / RegVarAndOp batches / repeated requests in a drawn order, optionally undefined-variable mode with names left unregistered; bindings of every raw type the documentation lists (int, int8..int32, uint8..uint64, int64, []int, []int32, []int64, []string, time.Time, Duration, bool, string) at extremes. Oracle: after every step the key map is injective and no earlier assignment changed; (c_tuple v0 .. vn) and single-variable programs evaluate, through NewCtxFromVars (slice- or map-backed) and through the one-shot eval.Eval over the same layout, to the harness's own normalisation of the bound values. Non-trivial = the final layout has a key < 0, = 0, = 255, = 256 or > 256, or GetOrRegisterKey had to fill a gap; distinct by the whole history",
+	Rule:  "registration histories: 1..40 (sometimes 100..126) names, a pre-populated key map with distinct keys from {-32768, -3..3, 250..260, 32760..32767, random int16, small}, then GetOrRegisterKey / RegVarAndOp batches / repeated requests / ExtendConf of a base config holding further names, in a drawn order, names sometimes those of keywords and operators (if, let, map, in, and ...), optionally undefined-variable mode with names left unregistered; bindings of every raw type the documentation lists (int, int8..int32, uint8..uint64, int64, []int, []int32, []int64, []string, time.Time, Duration, bool, string) at extremes. Oracle: after every step the key map is injective and no earlier assignment changed; (c_tuple v0 .. vn) and single-variable programs evaluate, through NewCtxFromVars (slice- or map-backed) and through the one-shot eval.Eval over the same layout, to the harness's own normalisation of the bound values. Non-trivial = the final layout has a key < 0, = 0, = 255, = 256 or > 256, or GetOrRegisterKey had to fill a gap; distinct by the whole history",
 	Gen:   genC11,
 	Check: checkC11,
 }
